@@ -91,12 +91,15 @@ structure Config where
   announceInterval : Int
   minAnnounceInterval : Int
 
+/-- the response `HandleAnnounce` starts from -/
+def initResp (cfg : Config) (req : AnnReq) : AnnResp :=
+  { compact := req.compact, complete := 0, incomplete := 0, interval := cfg.announceInterval,
+    minInterval := cfg.minAnnounceInterval, v4peers := [], v6peers := [] }
+
 /-- `Logic.HandleAnnounce`: pre-hooks, then the response hook (always last) -/
 def handleAnnounce (cfg : Config) (ops : StoreOps σ) (pre : List AnnHook) (st : σ) (req : AnnReq) :
     List Nat × Except ErrClass (Ctx × AnnResp) :=
-  runAnn (pre ++ [responseAnnounce ops st]) req 0 {}
-    { compact := req.compact, complete := 0, incomplete := 0, interval := cfg.announceInterval,
-      minInterval := cfg.minAnnounceInterval, v4peers := [], v6peers := [] }
+  runAnn (pre ++ [responseAnnounce ops st]) req 0 {} (initResp cfg req)
 
 /-- `Logic.AfterAnnounce`: post-hooks, then the swarm interaction (always last); a failing post-hook
 stops the chain. Returns the post-hook log and the new store state. -/
